@@ -11,7 +11,8 @@
             serdes  = Serdes.load / Iter.itervalues / Iter.iteritems                 (Props/IoBridge.v)
             rest    = base (==, hashability, the exception kinds a union swallows)
      E   := tr_env N G, the core environment of the graph model's environment G      (Props/C05Bridge.v)
-     orders : any function with graph_orders N G no_noop orders -- whatever it returns for an annotation is the
+     noop   : any set of pass-through leaves of the leaf table (kind LAny); no_noop = none
+     orders : any function with graph_orders N G noop orders -- whatever it returns for an annotation is the
             translation of SOME topological order of the adjacency Graph.type_graph builds (graphlib's contract)
      api_call crt E orders dir fuel T x : the MECHANISM (factory, TypeContext, Delayed proxies)   (Props/C05.v)
 
@@ -51,6 +52,7 @@ Theorem Capstone_one_runtime : forall C kind_of rts mv rt0 P E ib T srt base Tz,
   (forall s, TL.Model.Scalars.RuntimeLaws (rts s)) -> (forall s, TL.Model.LeafBridge.FoldLaws (rts s)) ->
   TL.Proofs.LeafBridge.Utf8Total rt0 -> (forall e, suppressed base (TL.Model.LeafBridge.exn_map e) = true) ->
   (forall s, TL.Model.LeafBridge.SLoadLaw Tz srt (rts s)) -> (forall s, TL.Model.LeafBridge.SShapeLaws Tz (rts s)) ->
+  TL.Proofs.LeafBridge.base_idem kind_of base ->
   let crt := cap_runtime C kind_of rts mv rt0 P E ib T srt base in
   TL.Model.CoreC01.RoundLaws crt (TL.Model.LeafBridge.lv C kind_of rts mv true) /\
   TL.Model.CoreValid.NoneLaws crt /\
@@ -64,13 +66,13 @@ Theorem Capstone_one_runtime : forall C kind_of rts mv rt0 P E ib T srt base Tz,
   TL.Model.IoBridge.IterLaws P E crt /\ TL.Model.IoBridge.LoadLaw T srt crt /\
   (exists a, none crt = PAtom a).
 Proof.
-  intros C kind_of rts mv rt0 P E ib T srt base Tz CL BL HL HF HU HS H1 H2.
+  intros C kind_of rts mv rt0 P E ib T srt base Tz CL BL HL HF HU HS H1 H2 HB.
   exact (let HLd := proj1 (cap_load_laws_same_serdes C kind_of rts mv rt0 P E ib T srt base Tz H1 H2) in
     conj (cap_round_laws C kind_of rts mv rt0 P E ib T srt base CL HL HF)
    (conj (cap_none_laws C kind_of rts mv rt0 P E ib T srt base CL HU HS)
    (conj (cap_pass_laws_inst C kind_of rts mv rt0 P E ib T srt base CL HU HS HLd)
    (conj (cap_idem_laws C kind_of rts mv rt0 P E ib T srt base CL HU HS HLd
-            (fun s => TL.Model.Scalars.enum_result_member (rts s) (HL s)))
+            (fun s => TL.Model.Scalars.enum_result_member (rts s) (HL s)) HB)
    (conj (cap_leaf_laws C kind_of rts mv rt0 P E ib T srt base CL)
    (conj (cap_marshal_laws C kind_of rts mv rt0 P E ib T srt base CL)
    (conj (cap_iter_laws C kind_of rts mv rt0 P E ib T srt base BL)
@@ -80,8 +82,9 @@ Qed.
 
 (* the mechanism along any translated topological order computes the reference semantics on the composed runtime
    (C05_unmarshal / C05_marshal o C05Bridge); no hypothesis about the runtime at all *)
-Theorem Capstone_mechanism_is_reference : forall C kind_of rts mv rt0 P ib T srt base N G orders,
-  TL.Proofs.GraphBridge.graph_orders N G no_noop orders ->
+Theorem Capstone_mechanism_is_reference : forall C kind_of rts mv rt0 P ib T srt base N G orders noop,
+  (forall s, noop s = true -> TL.Model.LeafBridge.any_leaf kind_of s = true) ->
+  TL.Proofs.GraphBridge.graph_orders N G noop orders ->
   forall Ty fuel x,
   let E := TL.Model.GraphBridge.tr_env N G in
   let crt := cap_runtime C kind_of rts mv rt0 P E ib T srt base in
@@ -89,7 +92,7 @@ Theorem Capstone_mechanism_is_reference : forall C kind_of rts mv rt0 P ib T srt
      exists m, forall m', m' >= m -> unm crt E m' Ty x = api_call crt E orders true fuel Ty x) /\
   (done (api_call crt E orders false fuel Ty x) = true ->
      exists m, forall m', m' >= m -> mar crt E m' Ty x = api_call crt E orders false fuel Ty x).
-Proof. intros C kind_of rts mv rt0 P ib T srt base N G orders GO Ty fuel x. exact (cap_mech_is_reference C kind_of rts mv rt0 P ib T srt base N G orders GO Ty fuel x). Qed.
+Proof. intros C kind_of rts mv rt0 P ib T srt base N G orders noop NS GO Ty fuel x. exact (cap_mech_is_reference C kind_of rts mv rt0 P ib T srt base N G orders noop NS GO Ty fuel x). Qed.
 
 (* One Serdes runtime for BOTH loads (the scalar routines' serdes.load and the core model's) is a JOINT law: Scalars.
    RuntimeLaws has one field about load on text (uuid_text_not_loadable); with load := Serdes.load it constrains the
@@ -103,6 +106,23 @@ Theorem Capstone_same_serdes_joint_law : forall rt Tz srt,
   let rt' := TL.Model.LeafBridge.with_load rt (TL.Model.LeafBridge.ind_load Tz srt) in
   TL.Model.Scalars.RuntimeLaws rt' /\ TL.Model.LeafBridge.FoldLaws rt' /\ TL.Model.LeafBridge.SLoadLaw Tz srt rt'.
 Proof. exact same_serdes_joint. Qed.
+
+(* ... and that joint law is C14's theorem (C14_load_plain_text) transported: what is needed of the text interpreter is
+   Serdes.RuntimeLaws, the shape of text carriers (STextLaws: provable for the concrete shape, LB_std_text_laws) and two
+   interpreter FACTS about the text of a UUID: the JSON decoder rejects it and literal_eval rejects it (UuidTextFacts;
+   the decoders are fields of Serdes.Runtime, so the facts are stated, not computed) *)
+Theorem Capstone_same_serdes_from_c14 : forall rt Tz srt cp,
+  TL.Model.Scalars.RuntimeLaws rt -> TL.Model.LeafBridge.FoldLaws rt -> TL.Model.Serdes.RuntimeLaws srt ->
+  TL.Model.LeafBridge.STextLaws Tz srt rt cp -> TL.Model.LeafBridge.UuidTextFacts srt rt cp ->
+  let rt' := TL.Model.LeafBridge.with_load rt (TL.Model.LeafBridge.ind_load Tz srt) in
+  TL.Model.Scalars.RuntimeLaws rt' /\ TL.Model.LeafBridge.FoldLaws rt' /\ TL.Model.LeafBridge.SLoadLaw Tz srt rt'.
+Proof. exact same_serdes_from_c14. Qed.
+Example Capstone_same_serdes_from_c14_instance :
+  TL.Model.Serdes.RuntimeLaws srt_nojson /\
+  TL.Model.LeafBridge.UuidTextFacts srt_nojson TL.Model.ScalarsToy.toy_rt TL.Model.LeafBridge.codes /\
+  TL.Model.Scalars.RuntimeLaws ex2_srt_rt /\ TL.Model.LeafBridge.FoldLaws ex2_srt_rt /\
+  TL.Model.LeafBridge.SLoadLaw TL.Model.LeafBridge.std_sshape srt_nojson ex2_srt_rt.
+Proof. exact (conj srt_nojson_laws (conj ex2_uuid_facts ex2_joint_from_c14)). Qed.
 
 (* ... and the two EXISTING toy interpreters (Model/ScalarsToy.v, Model/SerdesToy.v) do NOT satisfy it together: a UUID
    of the scalar toy is any token and its text is the token, the text toy's JSON decoder reads "1" as the int 1.  (The
@@ -122,8 +142,9 @@ Proof. exact cap_refuted_joined_toys. Qed.
               [guard] valid, c01_guard, union_unamb on (T, v)   [fuel] the three done / = Ok premises.
    NOT needed: any IoBridge hypothesis (the wire form of a composite is a composite: load is the identity on it),
    NoneLaws, the order contract, RoundLaws, leaf_m_inj. *)
-Theorem Capstone_C01_roundtrip : forall C kind_of rts mv rt0 P ib T srt base N G orders,
-  TL.Model.LeafBridge.coding_law C -> TL.Proofs.GraphBridge.graph_orders N G no_noop orders ->
+Theorem Capstone_C01_roundtrip : forall C kind_of rts mv rt0 P ib T srt base N G orders noop,
+  TL.Model.LeafBridge.coding_law C -> (forall s, noop s = true -> TL.Model.LeafBridge.any_leaf kind_of s = true) ->
+  TL.Proofs.GraphBridge.graph_orders N G noop orders ->
   (forall s, TL.Model.Scalars.RuntimeLaws (rts s)) -> (forall s, TL.Model.LeafBridge.FoldLaws (rts s)) ->
   let E := TL.Model.GraphBridge.tr_env N G in
   let crt := cap_runtime C kind_of rts mv rt0 P E ib T srt base in
@@ -135,11 +156,12 @@ Theorem Capstone_C01_roundtrip : forall C kind_of rts mv rt0 P ib T srt base N G
     api_call crt E orders false fm Ty v = Ok w ->
     done (api_call crt E orders true fu Ty w) = true ->
     api_call crt E orders true fu Ty w = Ok v.
-Proof. intros C kind_of rts mv rt0 P ib T srt base N G orders CL GO HL HF. exact (cap_C01_roundtrip C kind_of rts mv rt0 P ib T srt base N G orders CL GO HL HF). Qed.
+Proof. intros C kind_of rts mv rt0 P ib T srt base N G orders noop CL NS GO HL HF. exact (cap_C01_roundtrip C kind_of rts mv rt0 P ib T srt base N G orders noop CL NS GO HL HF). Qed.
 
 (* the weak form (no unambiguity hypothesis): marshal(unmarshal(m)) = m for m = marshal(v), through the mechanism *)
-Theorem Capstone_C01_union_fixpoint : forall C kind_of rts mv rt0 P ib T srt base N G orders,
-  TL.Model.LeafBridge.coding_law C -> TL.Proofs.GraphBridge.graph_orders N G no_noop orders ->
+Theorem Capstone_C01_union_fixpoint : forall C kind_of rts mv rt0 P ib T srt base N G orders noop,
+  TL.Model.LeafBridge.coding_law C -> (forall s, noop s = true -> TL.Model.LeafBridge.any_leaf kind_of s = true) ->
+  TL.Proofs.GraphBridge.graph_orders N G noop orders ->
   (forall s, TL.Model.Scalars.RuntimeLaws (rts s)) -> (forall s, TL.Model.LeafBridge.FoldLaws (rts s)) ->
   let E := TL.Model.GraphBridge.tr_env N G in
   let crt := cap_runtime C kind_of rts mv rt0 P E ib T srt base in
@@ -150,7 +172,7 @@ Theorem Capstone_C01_union_fixpoint : forall C kind_of rts mv rt0 P ib T srt bas
     api_call crt E orders true fu Ty m = Ok v' ->
     done (api_call crt E orders false fm' Ty v') = true ->
     api_call crt E orders false fm' Ty v' = Ok m.
-Proof. intros C kind_of rts mv rt0 P ib T srt base N G orders CL GO HL HF. exact (cap_C01_fixpoint C kind_of rts mv rt0 P ib T srt base N G orders CL GO HL HF). Qed.
+Proof. intros C kind_of rts mv rt0 P ib T srt base N G orders noop CL NS GO HL HF. exact (cap_C01_fixpoint C kind_of rts mv rt0 P ib T srt base N G orders noop CL NS GO HL HF). Qed.
 
 (* 1b. ... and this is where IoBridge IS needed: the JSON TEXT of the wire form, in any of the five text carriers
    (str, bytes, bytearray, memoryview, ...), unmarshals to the value as well -- because the load of the composed runtime
@@ -158,8 +180,9 @@ Proof. intros C kind_of rts mv rt0 P ib T srt base N G orders CL GO HL HF. exact
    additional remaining: [law] Serdes.RuntimeLaws srt (UTF-8 / JSON decoder laws)
                          [guard] load_first_ty, is_scalar w = false, encodable s, json_loads_str srt s = Ok r, unS T r = Some w
                                  (the text s is JSON for the wire form w), a_ser T a = carrier k s (atom a carries s) *)
-Theorem Capstone_C01_roundtrip_text : forall C kind_of rts mv rt0 P ib T srt base N G orders,
-  TL.Model.LeafBridge.coding_law C -> TL.Proofs.GraphBridge.graph_orders N G no_noop orders ->
+Theorem Capstone_C01_roundtrip_text : forall C kind_of rts mv rt0 P ib T srt base N G orders noop,
+  TL.Model.LeafBridge.coding_law C -> (forall s, noop s = true -> TL.Model.LeafBridge.any_leaf kind_of s = true) ->
+  TL.Proofs.GraphBridge.graph_orders N G noop orders ->
   (forall s, TL.Model.Scalars.RuntimeLaws (rts s)) -> (forall s, TL.Model.LeafBridge.FoldLaws (rts s)) ->
   TL.Model.Serdes.RuntimeLaws srt ->
   let E := TL.Model.GraphBridge.tr_env N G in
@@ -175,14 +198,15 @@ Theorem Capstone_C01_roundtrip_text : forall C kind_of rts mv rt0 P ib T srt bas
     TL.Model.IoBridge.unS T r = Some w -> TL.Model.IoBridge.a_ser T a = TL.Model.Serdes.carrier srt k s ->
     done (api_call crt E orders true fu Ty (PAtom a)) = true ->
     api_call crt E orders true fu Ty (PAtom a) = Ok v.
-Proof. intros C kind_of rts mv rt0 P ib T srt base N G orders CL GO HL HF SL. exact (cap_C01_roundtrip_text C kind_of rts mv rt0 P ib T srt base N G orders CL GO HL HF SL). Qed.
+Proof. intros C kind_of rts mv rt0 P ib T srt base N G orders noop CL NS GO HL HF SL. exact (cap_C01_roundtrip_text C kind_of rts mv rt0 P ib T srt base N G orders noop CL NS GO HL HF SL). Qed.
 
 (* ================================================================== 2. the same in any history *)
 (* Capstone_C01_roundtrip o C12Bridge_sound: what the i-th call of ANY history of the memoised system marshalled,
    the j-th call -- earlier or later, whatever ran in between, whichever caches were warm -- unmarshals back.
    additional remaining: [guard] clean_hist (no cache hit under an ==-equal, non-identical key: KF-C12-union-order) *)
-Theorem Capstone_C01_any_history : forall C kind_of rts mv rt0 P ib T srt base N G orders,
-  TL.Model.LeafBridge.coding_law C -> TL.Proofs.GraphBridge.graph_orders N G no_noop orders ->
+Theorem Capstone_C01_any_history : forall C kind_of rts mv rt0 P ib T srt base N G orders noop,
+  TL.Model.LeafBridge.coding_law C -> (forall s, noop s = true -> TL.Model.LeafBridge.any_leaf kind_of s = true) ->
+  TL.Proofs.GraphBridge.graph_orders N G noop orders ->
   (forall s, TL.Model.Scalars.RuntimeLaws (rts s)) -> (forall s, TL.Model.LeafBridge.FoldLaws (rts s)) ->
   let E := TL.Model.GraphBridge.tr_env N G in
   let crt := cap_runtime C kind_of rts mv rt0 P E ib T srt base in
@@ -202,14 +226,15 @@ Theorem Capstone_C01_any_history : forall C kind_of rts mv rt0 P ib T srt base N
     done r = true ->
     r = Ok v.
 Proof.
-  intros C kind_of rts mv rt0 P ib T srt base N G orders CL GO HL HF E crt lvs uw_fuel is_text max_load alias_load enc dec byteslike.
-  exact (cap_C01_any_history C kind_of rts mv rt0 P ib T srt base N G orders CL GO HL HF uw_fuel is_text max_load alias_load enc dec byteslike).
+  intros C kind_of rts mv rt0 P ib T srt base N G orders noop CL NS GO HL HF E crt lvs uw_fuel is_text max_load alias_load enc dec byteslike.
+  exact (cap_C01_any_history C kind_of rts mv rt0 P ib T srt base N G orders noop CL NS GO HL HF uw_fuel is_text max_load alias_load enc dec byteslike).
 Qed.
 
 (* C03 in any history: NO interpreter law.  remaining: [coding] coding_law  [contract] graph_orders
    [guard] wf_env, clean_hist *)
-Theorem Capstone_C03_any_history : forall C kind_of rts mv rt0 P ib T srt base N G orders,
-  TL.Model.LeafBridge.coding_law C -> TL.Proofs.GraphBridge.graph_orders N G no_noop orders ->
+Theorem Capstone_C03_any_history : forall C kind_of rts mv rt0 P ib T srt base N G orders noop,
+  TL.Model.LeafBridge.coding_law C -> (forall s, noop s = true -> TL.Model.LeafBridge.any_leaf kind_of s = true) ->
+  TL.Proofs.GraphBridge.graph_orders N G noop orders ->
   TL.Proofs.CoreC03.wf_env (TL.Model.GraphBridge.tr_env N G) ->
   let E := TL.Model.GraphBridge.tr_env N G in
   let crt := cap_runtime C kind_of rts mv rt0 P E ib T srt base in
@@ -221,7 +246,7 @@ Theorem Capstone_C03_any_history : forall C kind_of rts mv rt0 P ib T srt base N
     nth_error (TL.Model.CacheBridge.outsS crt E orders uw_fuel is_text max_load alias_load enc dec byteslike fuel
                  TL.Model.CacheBridge.cinit h) k = Some (TL.Model.CacheBridge.COVal (Ok v)) ->
     exists n, TL.Model.CoreC03.conforms crt E (TL.Model.LeafBridge.leaf_class_ok C kind_of rts) n Ty v = true.
-Proof. intros C kind_of rts mv rt0 P ib T srt base N G orders CL GO WF. exact (cap_C03_any_history C kind_of rts mv rt0 P ib T srt base N G orders CL GO WF). Qed.
+Proof. intros C kind_of rts mv rt0 P ib T srt base N G orders noop CL NS GO WF. exact (cap_C03_any_history C kind_of rts mv rt0 P ib T srt base N G orders noop CL NS GO WF). Qed.
 
 (* ================================================================== 3. C02 end to end *)
 (* Model/Codec.v instantiated with the routines the FACTORY builds (encM / decM / api_encM: marshaller(T) = api_call ..
@@ -233,8 +258,9 @@ Proof. intros C kind_of rts mv rt0 P ib T srt base N G orders CL GO WF. exact (c
    remaining: those of (1), plus [coding] TableLaws atab ktab unat (atom <-> JSON scalar), [guard] tr w = Some j
    (the wire form is JSON data with str keys), dom j (orjson: 64-bit ints), nodup_keys j, forallb is_ws (st_sp st)
    (true of both known styles).  NO hypothesis about the JSON layer. *)
-Theorem Capstone_C02_roundtrip : forall C kind_of rts mv rt0 P ib T srt base N G orders,
-  TL.Model.LeafBridge.coding_law C -> TL.Proofs.GraphBridge.graph_orders N G no_noop orders ->
+Theorem Capstone_C02_roundtrip : forall C kind_of rts mv rt0 P ib T srt base N G orders noop,
+  TL.Model.LeafBridge.coding_law C -> (forall s, noop s = true -> TL.Model.LeafBridge.any_leaf kind_of s = true) ->
+  TL.Proofs.GraphBridge.graph_orders N G noop orders ->
   (forall s, TL.Model.Scalars.RuntimeLaws (rts s)) -> (forall s, TL.Model.LeafBridge.FoldLaws (rts s)) ->
   let E := TL.Model.GraphBridge.tr_env N G in
   let crt := cap_runtime C kind_of rts mv rt0 P E ib T srt base in
@@ -259,8 +285,8 @@ Theorem Capstone_C02_roundtrip : forall C kind_of rts mv rt0 P ib T srt base N G
                  (TL.Proofs.JsonLemmas.known_style st ->
                     TL.Model.Json.std_loads b = Some j /\ TL.Model.Json.std_utf8_branch b = true)).
 Proof.
-  intros C kind_of rts mv rt0 P ib T srt base N G orders CL GO HL HF E crt lvs atab ktab unat st strict surr dom isb class_of.
-  exact (cap_C02_roundtrip C kind_of rts mv rt0 P ib T srt base N G orders CL GO HL HF atab ktab unat st strict surr dom isb class_of).
+  intros C kind_of rts mv rt0 P ib T srt base N G orders noop CL NS GO HL HF E crt lvs atab ktab unat st strict surr dom isb class_of.
+  exact (cap_C02_roundtrip C kind_of rts mv rt0 P ib T srt base N G orders noop CL NS GO HL HF atab ktab unat st strict surr dom isb class_of).
 Qed.
 
 (* C02Bridge o LeafBridge at the TABLE level: the atom table of the JSON layer is DEFINABLE from the scalar coding
@@ -271,8 +297,9 @@ Theorem Capstone_tables_from_coding : forall C, TL.Model.LeafBridge.coding_law C
 Proof. exact cap_table_laws. Qed.
 
 (* ... so composition (3) with these tables has NO [coding] premise beyond coding_law C *)
-Theorem Capstone_C02_roundtrip_from_coding : forall C kind_of rts mv rt0 P ib T srt base N G orders,
-  TL.Model.LeafBridge.coding_law C -> TL.Proofs.GraphBridge.graph_orders N G no_noop orders ->
+Theorem Capstone_C02_roundtrip_from_coding : forall C kind_of rts mv rt0 P ib T srt base N G orders noop,
+  TL.Model.LeafBridge.coding_law C -> (forall s, noop s = true -> TL.Model.LeafBridge.any_leaf kind_of s = true) ->
+  TL.Proofs.GraphBridge.graph_orders N G noop orders ->
   (forall s, TL.Model.Scalars.RuntimeLaws (rts s)) -> (forall s, TL.Model.LeafBridge.FoldLaws (rts s)) ->
   let E := TL.Model.GraphBridge.tr_env N G in
   let crt := cap_runtime C kind_of rts mv rt0 P E ib T srt base in
@@ -288,8 +315,8 @@ Theorem Capstone_C02_roundtrip_from_coding : forall C kind_of rts mv rt0 P ib T 
                         (decM (cap_atab C) (cap_ktab C) (cap_unat C) crt E orders st strict surr dom isb fm fu Ty)
       = TL.Model.Codec.Ok (TL.Proofs.CodecBridge.OVal v).
 Proof.
-  intros C kind_of rts mv rt0 P ib T srt base N G orders CL GO HL HF E crt lvs st strict surr dom isb Hsp n Ty v fm fu w j Hv Hg Hu Hd Hm Ht Hdm Hn Hdu.
-  exact (proj1 (cap_C02_roundtrip C kind_of rts mv rt0 P ib T srt base N G orders CL GO HL HF
+  intros C kind_of rts mv rt0 P ib T srt base N G orders noop CL NS GO HL HF E crt lvs st strict surr dom isb Hsp n Ty v fm fu w j Hv Hg Hu Hd Hm Ht Hdm Hn Hdu.
+  exact (proj1 (cap_C02_roundtrip C kind_of rts mv rt0 P ib T srt base N G orders noop CL NS GO HL HF
                   (cap_atab C) (cap_ktab C) (cap_unat C) st strict surr dom isb (fun _ => Ty)
                   (cap_table_laws C CL) Hsp n Ty v fm fu w j Hv Hg Hu Hd Hm Ht Hdm Hn Hdu)).
 Qed.
@@ -297,22 +324,24 @@ Qed.
 (* ================================================================== 4. C03 / C13 / C06 through the mechanism *)
 (* C03_conforms o C05_unmarshal o C05Bridge o LB_leaf_laws: whatever the mechanism returns, for ANY input, conforms.
    remaining: [coding] coding_law  [contract] graph_orders  [guard] wf_env.  NO interpreter law. *)
-Theorem Capstone_C03_conforms : forall C kind_of rts mv rt0 P ib T srt base N G orders,
-  TL.Model.LeafBridge.coding_law C -> TL.Proofs.GraphBridge.graph_orders N G no_noop orders ->
+Theorem Capstone_C03_conforms : forall C kind_of rts mv rt0 P ib T srt base N G orders noop,
+  TL.Model.LeafBridge.coding_law C -> (forall s, noop s = true -> TL.Model.LeafBridge.any_leaf kind_of s = true) ->
+  TL.Proofs.GraphBridge.graph_orders N G noop orders ->
   let E := TL.Model.GraphBridge.tr_env N G in
   let crt := cap_runtime C kind_of rts mv rt0 P E ib T srt base in
   TL.Proofs.CoreC03.wf_env E ->
   forall fuel Ty x v, api_call crt E orders true fuel Ty x = Ok v ->
     exists n, TL.Model.CoreC03.conforms crt E (TL.Model.LeafBridge.leaf_class_ok C kind_of rts) n Ty v = true.
-Proof. intros C kind_of rts mv rt0 P ib T srt base N G orders CL GO. exact (cap_C03_conforms C kind_of rts mv rt0 P ib T srt base N G orders CL GO). Qed.
+Proof. intros C kind_of rts mv rt0 P ib T srt base N G orders noop CL NS GO. exact (cap_C03_conforms C kind_of rts mv rt0 P ib T srt base N G orders noop CL NS GO). Qed.
 
 (* C13_passthrough o C05 o C05Bridge o LB_pass_laws_instances o LB_load_laws_from_serdes: an already valid value
    (instances at the leaves) passes through the mechanism unchanged; serdes.load of the scalar routines and of the core
    model are the SAME Serdes runtime srt.
    remaining: [coding] coding_law, SLoadLaw / SShapeLaws (true by construction / provable for the concrete shape)
    [law] Utf8Total rt0   [guard] wf_env, optional_only, valid, suppressed base   [contract] graph_orders  [fuel] done *)
-Theorem Capstone_C13_passthrough : forall C kind_of rts mv rt0 P ib T srt base N G orders,
-  TL.Model.LeafBridge.coding_law C -> TL.Proofs.GraphBridge.graph_orders N G no_noop orders ->
+Theorem Capstone_C13_passthrough : forall C kind_of rts mv rt0 P ib T srt base N G orders noop,
+  TL.Model.LeafBridge.coding_law C -> (forall s, noop s = true -> TL.Model.LeafBridge.any_leaf kind_of s = true) ->
+  TL.Proofs.GraphBridge.graph_orders N G noop orders ->
   let E := TL.Model.GraphBridge.tr_env N G in
   let crt := cap_runtime C kind_of rts mv rt0 P E ib T srt base in
   forall Tz, TL.Proofs.LeafBridge.Utf8Total rt0 -> (forall e, suppressed base (TL.Model.LeafBridge.exn_map e) = true) ->
@@ -321,28 +350,31 @@ Theorem Capstone_C13_passthrough : forall C kind_of rts mv rt0 P ib T srt base N
   forall n fuel Ty v, TL.Model.CoreValid.optional_only E n Ty = true ->
     TL.Model.CoreValid.valid (TL.Model.LeafBridge.lv_inst C kind_of rts) crt E n Ty v = true ->
     done (api_call crt E orders true fuel Ty v) = true -> api_call crt E orders true fuel Ty v = Ok v.
-Proof. intros C kind_of rts mv rt0 P ib T srt base N G orders CL GO. exact (cap_C13_passthrough C kind_of rts mv rt0 P ib T srt base N G orders CL GO). Qed.
+Proof. intros C kind_of rts mv rt0 P ib T srt base N G orders noop CL NS GO. exact (cap_C13_passthrough C kind_of rts mv rt0 P ib T srt base N G orders noop CL NS GO). Qed.
 
 (* idempotence: what one call of the mechanism returned, another returns unchanged.
    additional remaining: [law] enum_result_member (a field of Scalars.RuntimeLaws)  [guard] DefaultsConform *)
-Theorem Capstone_C13_idempotent : forall C kind_of rts mv rt0 P ib T srt base N G orders,
-  TL.Model.LeafBridge.coding_law C -> TL.Proofs.GraphBridge.graph_orders N G no_noop orders ->
+Theorem Capstone_C13_idempotent : forall C kind_of rts mv rt0 P ib T srt base N G orders noop,
+  TL.Model.LeafBridge.coding_law C -> (forall s, noop s = true -> TL.Model.LeafBridge.any_leaf kind_of s = true) ->
+  TL.Proofs.GraphBridge.graph_orders N G noop orders ->
   let E := TL.Model.GraphBridge.tr_env N G in
   let crt := cap_runtime C kind_of rts mv rt0 P E ib T srt base in
   forall Tz, TL.Proofs.LeafBridge.Utf8Total rt0 -> (forall e, suppressed base (TL.Model.LeafBridge.exn_map e) = true) ->
   (forall s, TL.Model.LeafBridge.SLoadLaw Tz srt (rts s)) -> (forall s, TL.Model.LeafBridge.SShapeLaws Tz (rts s)) ->
   (forall s w m, TL.Model.Temporal.enum_of_val (rts s) w = TL.Model.Temporal.Ok m -> TL.Model.Temporal.is_member (rts s) m = true) ->
+  TL.Proofs.LeafBridge.base_idem kind_of base ->
   TL.Model.CoreValid.wf_env E -> TL.Model.CoreValid.DefaultsConform crt E ->
   forall Ty, (forall k, TL.Model.CoreValid.optional_only E k Ty = true) ->
   forall f1 f2 x y, api_call crt E orders true f1 Ty x = Ok y ->
     done (api_call crt E orders true f2 Ty y) = true -> api_call crt E orders true f2 Ty y = Ok y.
-Proof. intros C kind_of rts mv rt0 P ib T srt base N G orders CL GO. exact (cap_C13_idempotent C kind_of rts mv rt0 P ib T srt base N G orders CL GO). Qed.
+Proof. intros C kind_of rts mv rt0 P ib T srt base N G orders noop CL NS GO. exact (cap_C13_idempotent C kind_of rts mv rt0 P ib T srt base N G orders noop CL NS GO). Qed.
 
 (* C06_full o C05_marshal o C05Bridge o LB_marshal_laws: the mechanism's output for a valid value of a fully annotated
    type is wire data, freshly built.  remaining: [coding] coding_law [contract] graph_orders [guard] fully_annotated,
    valid.  NO interpreter law. *)
-Theorem Capstone_C06_wire : forall C kind_of rts mv rt0 P ib T srt base N G orders,
-  TL.Model.LeafBridge.coding_law C -> TL.Proofs.GraphBridge.graph_orders N G no_noop orders ->
+Theorem Capstone_C06_wire : forall C kind_of rts mv rt0 P ib T srt base N G orders noop,
+  TL.Model.LeafBridge.coding_law C -> (forall s, noop s = true -> TL.Model.LeafBridge.any_leaf kind_of s = true) ->
+  TL.Proofs.GraphBridge.graph_orders N G noop orders ->
   let E := TL.Model.GraphBridge.tr_env N G in
   let crt := cap_runtime C kind_of rts mv rt0 P E ib T srt base in
   forall strict R F Ty,
@@ -350,7 +382,7 @@ Theorem Capstone_C06_wire : forall C kind_of rts mv rt0 P ib T srt base N G orde
   forall fuel n v w, TL.Model.CoreC06.valid crt E (TL.Model.LeafBridge.lv C kind_of rts mv strict) n Ty v = true ->
     api_call crt E orders false fuel Ty v = Ok w ->
     TL.Model.CoreC06.is_wire (TL.Model.LeafBridge.prim_atom C) w = true /\ TL.Model.CoreC06.built crt w.
-Proof. intros C kind_of rts mv rt0 P ib T srt base N G orders CL GO. exact (cap_C06_wire C kind_of rts mv rt0 P ib T srt base N G orders CL GO). Qed.
+Proof. intros C kind_of rts mv rt0 P ib T srt base N G orders noop CL NS GO. exact (cap_C06_wire C kind_of rts mv rt0 P ib T srt base N G orders noop CL NS GO). Qed.
 
 (* ... with object identity (C06H_marshal_refines, C06H_fresh_fully_annotated, C06H_marshal_frame): the OBJECT the
    heap-level routine returns denotes exactly the value the mechanism returns, which is wire data; no mutable object
@@ -358,8 +390,9 @@ Proof. intros C kind_of rts mv rt0 P ib T srt base N G orders CL GO. exact (cap_
    additional remaining: [contract] AllocLaws hr, FreshLaws hr (robust leaves place their results freshly)
    [guard] read fuel h l = Some v (the input denotes a value: acyclic)   [fuel] hmar .. = Ok.
    "none rt is an atom" of C06H_fresh is DISCHARGED by the construction (none crt = PAtom (enc C VNone)). *)
-Theorem Capstone_C06_heap : forall C kind_of rts mv rt0 P ib T srt base N G orders,
-  TL.Model.LeafBridge.coding_law C -> TL.Proofs.GraphBridge.graph_orders N G no_noop orders ->
+Theorem Capstone_C06_heap : forall C kind_of rts mv rt0 P ib T srt base N G orders noop,
+  TL.Model.LeafBridge.coding_law C -> (forall s, noop s = true -> TL.Model.LeafBridge.any_leaf kind_of s = true) ->
+  TL.Proofs.GraphBridge.graph_orders N G noop orders ->
   let E := TL.Model.GraphBridge.tr_env N G in
   let crt := cap_runtime C kind_of rts mv rt0 P E ib T srt base in
   forall (hr : TL.Model.Heap.hruntime) fu strict R F Ty,
@@ -373,15 +406,16 @@ Theorem Capstone_C06_heap : forall C kind_of rts mv rt0 P ib T srt base N G orde
     TL.Model.Heap.reads h' l' w /\ TL.Model.CoreC06.is_wire (TL.Model.LeafBridge.prim_atom C) w = true /\
     (forall p, TL.Model.Heap.reach h' l' p -> TL.Model.Heap.mutable_at h' p = true -> List.length h <= p) /\
     (forall k p x, TL.Model.Heap.read k h p = Some x -> TL.Model.Heap.read k h' p = Some x).
-Proof. intros C kind_of rts mv rt0 P ib T srt base N G orders CL GO. exact (cap_C06_heap C kind_of rts mv rt0 P ib T srt base N G orders CL GO). Qed.
+Proof. intros C kind_of rts mv rt0 P ib T srt base N G orders noop CL NS GO. exact (cap_C06_heap C kind_of rts mv rt0 P ib T srt base N G orders noop CL NS GO). Qed.
 
 (* ================================================================== 5. C08 inside C05 *)
 (* C08Bridge_first_acceptor o C05_unmarshal o C05Bridge o LB_none_laws: the union step of the composed system IS C08's
    statement -- the mechanism's answer y for Union[ts] is the answer of the first member IN DECLARED ORDER whose own
    reference routine accepts x, every member declared before it having rejected x with a swallowed kind.
    remaining: [coding] coding_law [law] Utf8Total rt0 [guard] suppressed base [contract] graph_orders *)
-Theorem Capstone_C08_first_acceptor : forall C kind_of rts mv rt0 P ib T srt base N G orders,
-  TL.Model.LeafBridge.coding_law C -> TL.Proofs.GraphBridge.graph_orders N G no_noop orders ->
+Theorem Capstone_C08_first_acceptor : forall C kind_of rts mv rt0 P ib T srt base N G orders noop,
+  TL.Model.LeafBridge.coding_law C -> (forall s, noop s = true -> TL.Model.LeafBridge.any_leaf kind_of s = true) ->
+  TL.Proofs.GraphBridge.graph_orders N G noop orders ->
   let E := TL.Model.GraphBridge.tr_env N G in
   let crt := cap_runtime C kind_of rts mv rt0 P E ib T srt base in
   TL.Proofs.LeafBridge.Utf8Total rt0 -> (forall e, suppressed base (TL.Model.LeafBridge.exn_map e) = true) ->
@@ -390,56 +424,58 @@ Theorem Capstone_C08_first_acceptor : forall C kind_of rts mv rt0 P ib T srt bas
     exists n, forall k, k >= n ->
       exists i t, nth_error ts i = Some t /\ unm crt E (S k) t x = Ok y /\
         forall j tj, j < i -> nth_error ts j = Some tj -> TL.Proofs.UnionBridge.c_rejects crt (unm crt E (S k) tj) x.
-Proof. intros C kind_of rts mv rt0 P ib T srt base N G orders CL GO. exact (cap_C08_first_acceptor C kind_of rts mv rt0 P ib T srt base N G orders CL GO). Qed.
+Proof. intros C kind_of rts mv rt0 P ib T srt base N G orders noop CL NS GO. exact (cap_C08_first_acceptor C kind_of rts mv rt0 P ib T srt base N G orders noop CL NS GO). Qed.
 
-(* ================================================================== 6. where two bridges do NOT compose *)
-(* The composed runtime has NO pass-through leaf: every leaf routine of LeafBridge.bridged answers Unmodelled on a
-   container, so C05's hypothesis "noop_leaf s = true -> leaf_u rt s x = Ok x for EVERY x" forces noop_leaf to be
-   constantly false (hence no_noop above) ... *)
+(* ================================================================== 6. Any fields: the pass-through kind *)
+(* The compositions above take any set [noop] of pass-through leaves of the leaf table (kind LAny: typing.Any / object /
+   unresolvable, NoOp routines on EVERY core value).  Conversely, whatever satisfies C05's hypothesis "noop_leaf s ->
+   leaf_u rt s x = Ok x for EVERY x" on the composed runtime is such a leaf, or a leaf the table does not know (whose
+   routine is the base runtime's): a scalar kind answers Unmodelled on a container. *)
 Theorem Capstone_noop_forced : forall C kind_of rts mv rt0 P E ib T srt base noop_leaf,
   ((forall s x, noop_leaf s = true -> leaf_u (cap_runtime C kind_of rts mv rt0 P E ib T srt base) s x = Ok x) ->
-   forall s, noop_leaf s = false) /\
+   forall s, noop_leaf s = true -> TL.Model.LeafBridge.any_leaf kind_of s = true \/ kind_of s = None) /\
   ((forall s x, noop_leaf s = true -> leaf_m (cap_runtime C kind_of rts mv rt0 P E ib T srt base) s x = Ok x) ->
-   forall s, noop_leaf s = false).
+   forall s, noop_leaf s = true -> TL.Model.LeafBridge.any_leaf kind_of s = true \/ kind_of s = None).
 Proof.
   intros C kind_of rts mv rt0 P E ib T srt base noop_leaf.
   exact (conj (cap_noop_forced_u C kind_of rts mv rt0 P E ib T srt base noop_leaf)
               (cap_noop_forced_m C kind_of rts mv rt0 P E ib T srt base noop_leaf)).
 Qed.
 
-(* ... while C05Bridge's guard classes_ok demands noop_leaf (any_id N) = true as soon as an expanded class has a field
-   annotated typing.Any.  The two demands exclude each other: for EVERY graph with such a class no choice of noop_leaf
-   satisfies both, i.e. LeafBridge o C05Bridge does not cover environments with an Any field. *)
+(* The OLD leaf table (before LAny) bound every id to a scalar kind.  C05Bridge's guard classes_ok demands
+   noop_leaf (any_id N) = true as soon as an expanded class has a field annotated typing.Any: with a table that binds
+   any_id N to a scalar kind the two demands exclude each other, for EVERY graph with such a class and every noop_leaf.
+   (This is what the first composition ran into; it is why LeafBridge gained the pass-through kind.) *)
 Theorem Capstone_refuted_any_field : forall C kind_of rts mv rt0 P E' ib T srt base
-    (N : TL.Model.GraphBridge.naming) (G : TL.Model.Graph.env) (noop_leaf : nat -> bool) (g : TL.Model.Graph.adjacency) p preds c d,
+    (N : TL.Model.GraphBridge.naming) (G : TL.Model.Graph.env) (noop_leaf : nat -> bool) (g : TL.Model.Graph.adjacency) p preds c d kd,
+  kind_of (TL.Model.GraphBridge.any_id N) = Some kd -> kd <> TL.Model.LeafBridge.LAny ->
   In (p, preds) g -> TL.Model.Graph.nunw p = TL.Model.Graph.GClass c -> G c = Some d ->
   In TL.Model.Graph.GAny (map snd (TL.Model.Graph.cfields d)) ->
   TL.Proofs.GraphBridge.bridge_guard N G noop_leaf g = true ->
   ~ (forall s x, noop_leaf s = true -> leaf_u (cap_runtime C kind_of rts mv rt0 P E' ib T srt base) s x = Ok x).
-Proof. intros C kind_of rts mv rt0 P E' ib T srt base N G noop_leaf g p preds c d H1 H2 H3 H4 H5 H6. exact (cap_any_field_excluded C kind_of rts mv rt0 P E' ib T srt base N G noop_leaf g p preds c d H1 H2 H3 H4 H5 H6). Qed.
+Proof. intros C kind_of rts mv rt0 P E' ib T srt base N G noop_leaf g p preds c d kd K1 K2 H1 H2 H3 H4 H5 H6. exact (cap_any_field_excluded C kind_of rts mv rt0 P E' ib T srt base N G noop_leaf g p preds c d kd K1 K2 H1 H2 H3 H4 H5 H6). Qed.
 
-(* the exclusion bites on a concrete module:  class Node: nxt: Optional[Node]; kids: list[Node]; s: int; t: Any.
-   The graph side is satisfiable (with Any passing through), the composition is not. *)
+(* the exclusion bites on a concrete module:  class Node: nxt: Optional[Node]; kids: list[Node]; s: int; t: Any. *)
 Theorem Capstone_refuted_any_field_witness :
   exists g, TL.Model.Graph.type_graph 20 TL.Props.C05Bridge.brE2 (TL.Model.Graph.GClass 0) = TL.Model.Graph.Ok g /\
     TL.Proofs.GraphBridge.bridge_guard TL.Props.C05Bridge.brN2 TL.Props.C05Bridge.brE2 TL.Props.C05Bridge.any_leaf g = true /\
-    forall C kind_of rts mv rt0 P E' ib T srt base noop_leaf,
+    forall C kind_of rts mv rt0 P E' ib T srt base noop_leaf kd,
+      kind_of (TL.Model.GraphBridge.any_id TL.Props.C05Bridge.brN2) = Some kd -> kd <> TL.Model.LeafBridge.LAny ->
       TL.Proofs.GraphBridge.bridge_guard TL.Props.C05Bridge.brN2 TL.Props.C05Bridge.brE2 noop_leaf g = true ->
       ~ (forall s x, noop_leaf s = true -> leaf_u (cap_runtime C kind_of rts mv rt0 P E' ib T srt base) s x = Ok x).
 Proof. exact cap_any_witness. Qed.
 
-(* The missing piece, stated as a local variant (Model/LeafBridge.v would have to gain it: a kind for typing.Any whose
-   two routines are NoOp, or [b_leaf_u] / [b_leaf_m] delegating unknown leaf ids to [base]): the runtime that answers
-   leaf any_id N with its input.  RoundLaws transfers with "anything is valid at Any", and composition (1) then holds
-   for environments WITH Any fields (noop_leaf = exactly that leaf). *)
+(* With the pass-through kind: [with_any a kind_of] binds leaf a to LAny (Model/LeafBridge.v's construction, nothing
+   local); anything is valid there, and composition (1) holds for environments WITH Any fields (noop_leaf = exactly
+   that leaf).  It is the instance noop := only_leaf (any_id N) of Capstone_C01_roundtrip. *)
 Theorem Capstone_C01_roundtrip_with_any : forall C kind_of rts mv rt0 P ib T srt base N G orders,
   TL.Model.LeafBridge.coding_law C ->
   (forall s, TL.Model.Scalars.RuntimeLaws (rts s)) -> (forall s, TL.Model.LeafBridge.FoldLaws (rts s)) ->
   TL.Proofs.GraphBridge.graph_orders N G (only_leaf (TL.Model.GraphBridge.any_id N)) orders ->
   forall n Ty v fm fu w,
     let E := TL.Model.GraphBridge.tr_env N G in
-    let rt := with_any (TL.Model.GraphBridge.any_id N) (cap_runtime C kind_of rts mv rt0 P E ib T srt base) in
-    let lva := lv_any (TL.Model.GraphBridge.any_id N) (TL.Model.LeafBridge.lv C kind_of rts mv true) in
+    let rt := cap_runtime C (with_any (TL.Model.GraphBridge.any_id N) kind_of) rts mv rt0 P E ib T srt base in
+    let lva := TL.Model.LeafBridge.lv C (with_any (TL.Model.GraphBridge.any_id N) kind_of) rts mv true in
     TL.Model.CoreC01.valid rt lva E n Ty v = true -> TL.Model.CoreC01.c01_guard rt E n Ty v = true ->
     TL.Model.CoreC01.union_unamb rt lva E n Ty v = true ->
     done (mar rt E n Ty v) = true ->
@@ -447,6 +483,12 @@ Theorem Capstone_C01_roundtrip_with_any : forall C kind_of rts mv rt0 P ib T srt
     done (api_call rt E orders true fu Ty w) = true ->
     api_call rt E orders true fu Ty w = Ok v.
 Proof. intros C kind_of rts mv rt0 P ib T srt base N G orders CL HL HF GO. exact (cap_C01_roundtrip_with_any C kind_of rts mv rt0 P ib T srt base N G orders CL HL HF GO). Qed.
+(* every value is valid at that leaf; every other leaf keeps its validity *)
+Theorem Capstone_with_any_validity : forall C a kind_of rts mv strict,
+  (forall x, TL.Model.LeafBridge.lv C (with_any a kind_of) rts mv strict a x = true) /\
+  (forall s x, Nat.eqb s a = false ->
+     TL.Model.LeafBridge.lv C (with_any a kind_of) rts mv strict s x = TL.Model.LeafBridge.lv C kind_of rts mv strict s x).
+Proof. intros C a kind_of rts mv strict. exact (conj (with_any_lv C a kind_of rts mv strict) (with_any_other C a kind_of rts mv strict)). Qed.
 
 (* ================================================================== non-vacuity *)
 (* ONE instance in which ALL hypotheses of compositions (0) (1) hold simultaneously, fully computed:
@@ -484,7 +526,7 @@ Example Capstone_C01_instance_by_theorem :
 Proof.
   exact (Capstone_C01_roundtrip ex_coding ex_kind ex_rts TL.Model.LeafBridge.ex_ev TL.Model.ScalarsToy.toy_rt
            TL.Model.IoBridgeEq.toy_shape TL.Model.IoBridgeEq.toy_back TL.Model.IoBridgeEq.toy_tshape TL.Model.SerdesToy.toy_rt
-           TL.Model.LeafBridge.ex_base ex_N ex_G ex_orders ex_coding_law ex_graph_orders
+           TL.Model.LeafBridge.ex_base ex_N ex_G ex_orders no_noop ex_coding_law (no_noop_sub ex_kind) ex_graph_orders
            (fun _ => TL.Proofs.ScalarsToyLemmas.toy_laws) (fun _ => TL.Proofs.LeafBridge.toy_fold_laws)
            8 ex_Tn ex_value 20 20 ex_wire
            (proj1 ex_instance) (proj1 (proj2 ex_instance)) (proj1 (proj2 (proj2 ex_instance)))
@@ -598,6 +640,8 @@ Print Assumptions Capstone_constructions_commute.
 Print Assumptions Capstone_one_runtime.
 Print Assumptions Capstone_mechanism_is_reference.
 Print Assumptions Capstone_same_serdes_joint_law.
+Print Assumptions Capstone_same_serdes_from_c14.
+Print Assumptions Capstone_same_serdes_from_c14_instance.
 Print Assumptions Capstone_refuted_joined_toys.
 Print Assumptions Capstone_C01_roundtrip.
 Print Assumptions Capstone_C01_union_fixpoint.
@@ -617,6 +661,7 @@ Print Assumptions Capstone_noop_forced.
 Print Assumptions Capstone_refuted_any_field.
 Print Assumptions Capstone_refuted_any_field_witness.
 Print Assumptions Capstone_C01_roundtrip_with_any.
+Print Assumptions Capstone_with_any_validity.
 Print Assumptions Capstone_C01_instance.
 Print Assumptions Capstone_C01_instance_by_theorem.
 Print Assumptions Capstone_C01_text_instance.
